@@ -207,6 +207,41 @@ func ruleCanonKey(c *Ctx) {
 				ok, why := c.keyProvenance(fd, call.Args[0], defs, 0)
 				c.ob(rule, fn+":loadDoc-arg", call.Pos(), ok, "document requested from the loader under a non-canonical URL: "+why)
 			}
+			// the URL handed to the document-load method (the loader method with a *url.URL parameter that
+			// consults the cache) is the URL of a reference value: it went through the reference parser's
+			// normalisation (lower-cased host, default port dropped), like every other cache key
+			if g, _ := c.callee(call).(*types.Func); g != nil && g.Pkg() == c.Types && len(call.Args) == 1 {
+				sig := g.Type().(*types.Signature)
+				if sig.Recv() != nil && sig.Params().Len() == 1 && c.isURLType(sig.Params().At(0).Type()) {
+					if gfd := c.decl(g); gfd != nil && gfd.Body != nil && c.hasCacheCall(gfd, "Get") != nil {
+						c.saw(fn)
+						ord["load"]++
+						fromRef := false
+						a := unparen(call.Args[0])
+						if ac, isCall := a.(*ast.CallExpr); isCall {
+							if _, name, _, isM := c.calleeMethod(ac); isM && name == "GetURL" {
+								fromRef = true
+							}
+						}
+						if id, isId := a.(*ast.Ident); isId {
+							ds := defs[c.objOf(id)]
+							fromRef = len(ds) > 0
+							for _, d := range ds {
+								dc, isCall := unparen(d).(*ast.CallExpr)
+								if !isCall {
+									fromRef = false
+									continue
+								}
+								if _, name, _, isM := c.calleeMethod(dc); !isM || name != "GetURL" {
+									fromRef = false
+								}
+							}
+						}
+						c.ob(rule, fmt.Sprintf("%s:load-arg-from-ref#%d", fn, ord["load"]), call.Pos(), fromRef,
+							"the document is loaded from a URL that did not come out of a reference value (Ref.GetURL()): it has skipped the reference parser's normalisation, so the same document can sit in the cache under two keys and is fetched twice (or fetched although it was pre-loaded)")
+					}
+				}
+			}
 			return true
 		})
 	}
